@@ -848,6 +848,11 @@ def search(res, tier, boost=False):
         gamma, mesh = search_mesh(rng, cname, rng.choice(['random', 'uniform', 'space']), tier)
         N = (rng.choice([1, 3, 5, 7, 9, 11, 13, 15, 17, 19]), rng.choice([1, 3, 5, 7, 9, 11, 13, 15, 17, 19]),
              rng.choice([1, 3, 5, 7, 9, 11, 13, 15, 17, 19]), rng.choice([1, 3, 5, 7, 9, 11, 13, 15, 17, 19]))
+        # skewed order tuples (one rule at a low order, the others high; the residual sits at the exactness limit of
+        # each direction separately): an order handed to the wrong rule shows
+        skew = [(19, 19, 1, 17), (19, 19, 17, 1), (19, 19, 3, 13), (1, 19, 9, 9), (19, 1, 9, 9), (19, 19, 13, 3)]
+        if k < (3 if not thor else len(skew)):
+            N = skew[(k + res.seed) % len(skew)]
         coef, dt, dx = pick_poly(rng, N)
         elems = list(mesh.leaf_elements)
         sample = rng.sample(elems, min(len(elems), 4 if not thor else 8))
